@@ -132,10 +132,17 @@ class CompoundQuery(qcore.Query):
         if all(q is qcore.NullQuery for q in subqueries):
             return qcore.NullQuery
 
-        # If there's an unfielded Every inside, then this query is Every
+        # An unfielded Every matches every document: a union containing one is
+        # Every, while in an intersection it is redundant
         if any((isinstance(q, Every) and q.fieldname is None)
                for q in subqueries):
-            return Every()
+            if not self.intersect_merge:
+                return Every()
+            rest = [q for q in subqueries
+                    if not (isinstance(q, Every) and q.fieldname is None)]
+            if not rest:
+                return Every()
+            subqueries = rest
 
         # Merge ranges and Everys
         everyfields = set()
